@@ -125,11 +125,17 @@ def check(ai, text):
         return None
     field = fields.TEXT(analyzer=ana, phrase=True, chars=True, stored=True)
     schema = fields.Schema(k=fields.ID(stored=True), f=field)
-    ix = RamStorage().create_index(schema)
+    st = RamStorage()
+    ix = st.create_index(schema)
     w = ix.writer()
     w.add_document(k=u"other", f=u"zulu yankee")
     w.add_document(k=u"doc", f=text)
     w.commit()
+    # query time: the index is opened again, so the schema (and with it the analyzer) is the one read back from the TOC
+    # (pickle round trip) - what every later process gets (seed C17-3: a stemming filter lost its language there)
+    ix = st.open_index()
+    schema = ix.schema
+    field = schema["f"]
     try:
         with ix.searcher() as s:
             def finds(q):
